@@ -108,6 +108,11 @@ pub fn race_prog(s: &mut Src) -> Program {
                 w.push(Op::CellWrite { c: 0 }); // write after publishing: racy by construction
             }
             let mut r = vec![Op::Await { a: 0, v: 1, o: lo, spin: s.chance(1, 2) }];
+            if s.chance(1, 4) {
+                // a compare_exchange that fails (the expected value is never stored): it
+                // synchronises with its *failure* ordering only
+                r.push(Op::Cas { a: 0, e: 5, n: 6, s: s.of(&[MO::Acq, MO::AcqRel, MO::Sc, MO::Rlx, MO::Rel]), f: s.of(&[MO::Rlx, MO::Rlx, MO::Acq, MO::Sc]) });
+            }
             if s.chance(1, 3) {
                 r.push(Op::Fence { o: s.of(&[MO::Acq, MO::AcqRel, MO::Rel]) });
             }
